@@ -303,6 +303,8 @@ class KGen:
                        "pass": rng.random() < 0.5} for i in range(rng.randint(0, 3))]
             op = {"op": "inject", "t": t, "async": is_async, "deps": deps, "others": others, "badUnion": False,
                   "future": rng.random() < 0.4}
+            if op["future"] and rng.random() < 0.3:
+                op["late"] = True       # first called before the annotated classes exist in its module (NameError), then again
             if rng.random() < 0.04:
                 op["badUnion"] = True
                 deps[0]["form"] = "badunion"
